@@ -162,6 +162,31 @@ theorem inserts_guarded (r : Insert) (hr : r ∈ inserts) (hl : r.phase = Phase.
     (hx : (excusedInserts.any fun e => e.1 == r.cls && e.2 == r.fn) = false) : InsertGuarded accesses r :=
   insertOkB_sound _ _ r (inserts_rechecked r hr) hl hx
 
+/-- **Panic safety of critical sections.**  Every operation that can panic on caller-controlled data and runs inside a
+    critical section opened in the same function runs after the section's unlock has been deferred — so a panic that is
+    recovered further up (`SlotChain.Entry`, `SentinelEntry.Exit`, the rule managers' `recover`) cannot leave the mutex
+    locked (`explicit_unlock_leaks_on_panic`). -/
+theorem sections_panic_safe : ∀ r ∈ riskyOps, r.phase = Phase.live → r.deferred = true := by
+  have h : riskyOps.all riskyOkB = true := by decide +kernel
+  intro r hr hl
+  have := List.all_eq_true.mp h r hr
+  simpa [riskyOkB, hl] using this
+
+theorem deferred_unlock_always_releases (p : Bool) : lockedAfterSection true p = false := by cases p <;> rfl
+theorem explicit_unlock_leaks_on_panic : lockedAfterSection false true = true := rfl
+
+/-- **Caller data is never mutated.**  No map/slice-typed field that is set to a parameter of an exported function
+    without copying is written through anywhere in its package: the API never writes into (nor keeps appending into
+    the backing array of) a map/slice the caller passed in, so callers may share such data between goroutines. -/
+theorem caller_data_never_mutated : ∀ s ∈ callerStores, ∀ w ∈ fieldWrites,
+    s.phase = Phase.live → w.phase = Phase.live → s.field ≠ w.field := by
+  have h : callerDataOkB callerStores fieldWrites = true := by decide +kernel
+  intro s hs w hw ls lw heq
+  have h1 := List.all_eq_true.mp h s hs
+  simp only [ls, bne_self_eq_false, Bool.false_or] at h1
+  have h2 := List.all_eq_true.mp h1 w hw
+  simp [heq, lw] at h2
+
 /-- fail closed: the extractor met no construct it could not interpret in live code -/
 theorem extractor_understood_everything : ∀ u ∈ unknowns, (u.phase != Phase.live) = true :=
   List.all_eq_true.mp (by decide +kernel)
